@@ -38,7 +38,8 @@ impl ConfigFile {
             if !line.is_empty() && line != "\0" {
                 if line.contains('<') || line.contains('>') {
                     // Category
-                    let name = &line[1..line.len() - 1];
+                    // a lone "<" or a bracket next to a multi-byte character has no name between the brackets
+                    let name = line.get(1..line.len().saturating_sub(1)).unwrap_or("");
                     current_category = Some(String::from(name));
                     cfg.categories.push(String::from(name));
                 } else if let (Some(category), Some((key, value))) =
